@@ -86,6 +86,15 @@ variable [Add α] [Sub α] [Mul α] [Div α] [Neg α] [Zero α] [One α] [LT α]
 /-- `accumulated + (accumulated - 1) * expm1(-G)` -/
 def cumAccumulate (a G : α) : α := a + (a - 1) * expm1 (-G)
 
+/-- index of the first step at which the accumulated probability exceeds `ζ`, for a sequence of
+    per-step total rates `G_i`, starting from accumulation `a` (the no-attempt branch of
+    `TrajectoryCum.hopper` iterated) -/
+def cumFirst (ζ : α) : α → List α → Nat → Option Nat
+  | _, [], _ => none
+  | a, G :: Gs, i =>
+    let acc := cumAccumulate a G
+    if ζ < acc then some i else cumFirst ζ acc Gs (i + 1)
+
 /-- `Generator.choice(range(N), p=p)` given the uniform draw `u`:
     `cdf = cumsum(p); cdf /= cdf[-1]; searchsorted(cdf, u, side='right')` = first `i` with `u < cdf_i` -/
 def firstLess (u : α) : List α → Nat → Option Nat
